@@ -355,6 +355,40 @@ def malformed_shard(task):
     return part
 
 
+ESC_ATOMS = [("\\d", str.isdigit), ("\\D", lambda c: not c.isdigit()), ("\\w", lambda c: c.isalnum() or c == "_"), ("\\s", lambda c: c in " \t\n\r\f\v"),
+             ("\\.", lambda c: c == "."), ("\\\\", lambda c: c == "\\"), ("\\x61", lambda c: c == "a"), ("a", lambda c: c == "a"), ("1", lambda c: c == "1")]
+ESC_TEXT_ALPHABET = ["a", "1", " ", ".", "\\", "_"]
+ESC_MALFORMED = ["\\", "a\\", "\\8", "\\d\\"]      # (an escaped punctuation character such as \\_ is legal RE2)
+
+
+def escape_shard(task):
+    """Patterns whose only special syntax is backslash escapes: every sequence of <= 2 atoms x every ASCII text of
+    length <= 2 over a 6-character alphabet; reference = a position where the atoms' character predicates hold in order."""
+    rk = task
+    part = runner.Part()
+    import celpy.celtypes as ct
+    prog = celrun.Prog(rk, "t.matches(p)")
+    prog2 = celrun.Prog(rk, "matches(t, p)")
+    texts = [""] + ["".join(t) for k in (1, 2) for t in itertools.product(ESC_TEXT_ALPHABET, repeat=k)]
+    n = 0
+    for k in (1, 2):
+        for atoms in itertools.product(ESC_ATOMS, repeat=k):
+            pat = "".join(a for a, _ in atoms)
+            for t in texts:
+                exp = any(all(i + j < len(t) and atoms[j][1](t[i + j]) for j in range(k)) for i in range(len(t)))
+                b = {"t": ct.StringType(t), "p": ct.StringType(pat)}
+                judge(part, rk, "matches", "escapes", f"{t!r}.matches({pat!r})", prog.eval(b), exp)
+                n += 1
+            judge(part, rk, "matches", "escapes-function-form", f"matches({'a1 .'!r}, {pat!r})", prog2.eval({"t": ct.StringType("a1 ."), "p": ct.StringType(pat)}),
+                  any(all(i + j < 4 and atoms[j][1]("a1 ."[i + j]) for j in range(k)) for i in range(4)))
+            n += 1
+    for pat in ESC_MALFORMED:
+        judge(part, rk, "matches", "malformed-escape", f'"a8_".matches({pat!r})', prog.eval({"t": ct.StringType("a8_"), "p": ct.StringType(pat)}), ERR)
+        n += 1
+    part.space(f"matches-escapes:{rk}", n, n, bound="<= 2 atoms of 9 (escapes \\d \\D \\w \\s \\. \\\\ \\x61 and two literals) x texts of length <= 2 over 6 characters; 4 malformed escapes")
+    return part
+
+
 def run(ctx):
     regexref.selftest()
     kleene.selftest()
@@ -367,6 +401,7 @@ def run(ctx):
         ctx.run_shards(string_shard, [(rk, lo, hi, ctx.tier) for lo, hi in runner.shards(85, 12)])
         ctx.run_shards(regex_shard, [(rk, lo, hi, ctx.tier) for lo, hi in runner.shards(nre, 32)])
         ctx.run_shards(malformed_shard, [rk])
+        ctx.run_shards(escape_shard, [rk])
     ctx.part.sample({"macro": "[0, 1, 2].exists_one(v, 1 / v > 0)", "index": "[7, 8][-1]", "map": '{"a": 10, "a": 20}["a"]', "string": '"é😀".contains("😀")', "regex": '"abab".matches("(a|b)*$")'})
     ctx.rule = ("every list of length <= 4 over small alphabets (int, string, bool, uint, nested) x every macro x every predicate/body of its type; every index in the int64 boundary set and around the list bounds; "
                 "every map of <= 2 entries per key alphabet (duplicates, every order) x lookup / in / select / has with present and absent keys; every string of length <= 3 over {a, b, e-acute, emoji} x every fragment; "
